@@ -6,6 +6,8 @@ import (
 	"fmt"
 	"math/big"
 
+	"github.com/nspcc-dev/neo-go/pkg/smartcontract/scparser"
+	"github.com/nspcc-dev/neo-go/pkg/vm"
 	"github.com/nspcc-dev/neo-go/pkg/vm/opcode"
 	"github.com/nspcc-dev/neo-go/pkg/vm/stackitem"
 
@@ -511,6 +513,129 @@ func limitProgs() []limitProg {
 		a.pushData(b)
 		a.op(opcode.INC)
 	}))
+	// ---- E: special cases of single instructions (second time, out of range, nothing to work on) ----
+	add(mk("try/both-offsets-zero", "FAULT", 0, 0, 0, func(a *asm) { a.try(opcode.TRY, -1, -1) }))
+	add(mk("try/finally-on-the-normal-path", "HALT", 0, 0, 1, func(a *asm) {
+		f, e := a.newLabel(), a.newLabel()
+		a.try(opcode.TRY, -1, f)
+		a.op(opcode.NEWARRAY0)
+		a.jmp(opcode.ENDTRY, e)
+		a.here(f)
+		a.op(opcode.ENDFINALLY)
+		a.here(e)
+		a.op(opcode.RET)
+	}))
+	add(mk("try/endtry-inside-finally", "FAULT", 0, 0, 1, func(a *asm) {
+		f, e := a.newLabel(), a.newLabel()
+		a.try(opcode.TRY, -1, f)
+		a.jmp(opcode.ENDTRY, e)
+		a.here(f)
+		a.jmp(opcode.ENDTRY, e)
+		a.here(e)
+		a.op(opcode.RET)
+	}))
+	add(mk("slot/initsslot-twice", "FAULT", 0, 0, 0, func(a *asm) { a.op(opcode.INITSSLOT); a.raw(1); a.op(opcode.INITSSLOT); a.raw(1) }))
+	add(mk("slot/initslot-twice", "FAULT", 0, 0, 0, func(a *asm) { initLocals(a, 1); initLocals(a, 1) }))
+	add(mk("slot/initslot-args-then-locals", "FAULT", 0, 0, 0, func(a *asm) {
+		a.op(opcode.PUSH1, opcode.INITSLOT)
+		a.raw(0, 1)
+		initLocals(a, 1)
+	}))
+	add(mk("slot/initslot-0-0", "FAULT", 0, 0, 0, func(a *asm) { initLocals(a, 0) }))
+	add(mk("slot/stloc-out-of-range", "FAULT", 0, 0, 0, func(a *asm) { initLocals(a, 1); a.op(opcode.NEWARRAY0, opcode.STLOC); a.raw(1) }))
+	add(mk("slot/ldloc-out-of-range", "FAULT", 0, 0, 0, func(a *asm) { initLocals(a, 1); a.op(opcode.LDLOC3) }))
+	add(mk("slot/stsfld-uninitialised", "FAULT", 0, 0, 0, func(a *asm) { a.op(opcode.NEWARRAY0, opcode.STSFLD0) }))
+	add(mk("sys/syscall-without-handler", "FAULT", 0, 0, 0, func(a *asm) { a.op(opcode.NEWARRAY0, opcode.SYSCALL); a.raw(1, 2, 3, 4) }))
+	add(mk("sys/callt-without-token-loader", "FAULT", 0, 0, 0, func(a *asm) { a.op(opcode.NEWARRAY0, opcode.CALLT); a.raw(0, 0) }))
+	add(mk("throw/array-with-message-uncaught", "FAULT", 0, 0, 0, func(a *asm) {
+		a.pushData([]byte("msg"))
+		a.op(opcode.PUSH1, opcode.PACK, opcode.THROW)
+	}))
+	for _, n := range []int{40, 60} { // a struct of n references to ONE struct of 40: few items, many to clone
+		want := "FAULT" // 60: cloning 60 + 60*40 items exceeds MaxClonableNumOfItems
+		if n == 40 {
+			want = "HALT" // 1640 new items
+		}
+		add(mk(fmt.Sprintf("clone/fan-out-%dx41", n), want, 0, 0, 0, func(a *asm) {
+			a.pushInt(40)
+			a.op(opcode.NEWSTRUCT)
+			for i := 1; i < n; i++ {
+				a.op(opcode.DUP)
+			}
+			a.pushInt(int64(n))
+			a.op(opcode.PACKSTRUCT, opcode.NEWARRAY0, opcode.DUP, opcode.ROT, opcode.APPEND)
+		}))
+	}
+	add(mk("clone/fan-out-20x41", "HALT", 900, 0, 0, func(a *asm) {
+		a.pushInt(40)
+		a.op(opcode.NEWSTRUCT)
+		for i := 1; i < 20; i++ {
+			a.op(opcode.DUP)
+		}
+		a.pushInt(20)
+		a.op(opcode.PACKSTRUCT, opcode.NEWARRAY0, opcode.DUP, opcode.ROT, opcode.APPEND, opcode.DUP, opcode.VALUES)
+	}))
+	for _, n := range []int{40, 60} { // comparing 60 + 60*40 items exceeds MaxComparableNumOfItems
+		want := "HALT"
+		if n == 60 {
+			want = "FAULT"
+		}
+		add(mk(fmt.Sprintf("equal/fan-out-%dx41", n), want, 0, 0, 0, func(a *asm) {
+			for k := 0; k < 2; k++ {
+				a.pushInt(40)
+				a.op(opcode.NEWSTRUCT)
+				for i := 1; i < n; i++ {
+					a.op(opcode.DUP)
+				}
+				a.pushInt(int64(n))
+				a.op(opcode.PACKSTRUCT)
+			}
+			a.op(opcode.EQUAL)
+		}))
+	}
+	for _, n := range []int{2, 3} { // 3 x 30000 bytes exceed MaxByteArrayComparableSize
+		want := "HALT"
+		if n == 3 {
+			want = "FAULT"
+		}
+		add(mk(fmt.Sprintf("equal/structs-of-%d-big-strings", n), want, 0, 0, 0, func(a *asm) {
+			for k := 0; k < 2; k++ {
+				for i := 0; i < n; i++ {
+					a.pushInt(30000)
+					a.op(opcode.NEWBUFFER, opcode.CONVERT)
+					a.raw(byte(stackitem.ByteArrayT))
+				}
+				a.pushInt(int64(n))
+				a.op(opcode.PACKSTRUCT)
+			}
+			a.op(opcode.EQUAL)
+		}))
+	}
+	add(mk("equal/strings-of-65537-bytes", "FAULT", 0, 0, 0, func(a *asm) {
+		for k := 0; k < 2; k++ {
+			a.pushInt(65537)
+			a.op(opcode.NEWBUFFER, opcode.CONVERT)
+			a.raw(byte(stackitem.ByteArrayT))
+		}
+		a.op(opcode.EQUAL)
+	}))
+	add(mk("equal/small-string-with-65537-bytes", "FAULT", 0, 0, 0, func(a *asm) {
+		a.pushData([]byte("a"))
+		a.pushInt(65537)
+		a.op(opcode.NEWBUFFER, opcode.CONVERT)
+		a.raw(byte(stackitem.ByteArrayT))
+		a.op(opcode.EQUAL)
+	}))
+	add(mk("map/remove-first-then-use-second", "HALT", 0, 0, 0, func(a *asm) { // Drop shifts the indices of later keys
+		a.op(opcode.NEWMAP)
+		for k := int64(0); k < 3; k++ {
+			a.op(opcode.DUP)
+			a.pushInt(k)
+			a.op(opcode.NEWARRAY0, opcode.SETITEM)
+		}
+		a.op(opcode.DUP, opcode.PUSH0, opcode.REMOVE, opcode.DUP, opcode.PUSH2, opcode.NEWSTRUCT0, opcode.SETITEM, opcode.DUP, opcode.PUSH1, opcode.REMOVE,
+			opcode.DUP, opcode.PUSH2, opcode.PICKITEM, opcode.DROP, opcode.DUP, opcode.UNPACK)
+	}))
 	return ps
 }
 
@@ -571,13 +696,13 @@ func intPrograms() []limitProg {
 }
 
 func limitsPart(s *stats) (n int, miss int) {
-	ps := append(limitProgs(), intPrograms()...)
+	hand := limitProgs()
+	ps := append(hand, intPrograms()...)
 	var missed vk.Counter
 	s.r.Parallel(len(ps), func(i int) {
 		p := ps[i]
 		w := newWalker()
 		r0 := s.fullCheck("limits", p.name, nil, p.script, deepBase, 400000, w, execOpts{mark: -1}, false)
-		s.merge(w)
 		bad := (p.want != "" && r0.State != p.want) || r0.MaxWalk < p.walk || r0.MaxInvoc < p.invoc || r0.MaxTry < p.try
 		if bad {
 			missed.Inc()
@@ -588,6 +713,68 @@ func limitsPart(s *stats) (n int, miss int) {
 			s.r.Sample(map[string]any{"part": "limits", "name": p.name, "script_bytes": len(p.script), "unlimited": r0.State, "steps": r0.Steps,
 				"max_walk": r0.MaxWalk, "max_vm_counter": r0.MaxRefs, "max_invocations": r0.MaxInvoc, "max_try": r0.MaxTry, "cycle": r0.Cyclic})
 		}
+		if i < len(hand) && r0.F == nil && r0.Steps <= 6000 {
+			s.reuseCheck("limits", p.name, p.script, deepBase, 400000, w, &r0)
+		}
+		s.merge(w)
 	})
+	s.apiTotality()
 	return len(ps), int(missed.Get())
+}
+
+// reuseCheck runs the script again on a VM that executed something else before
+// and was Reset() (Reset's contract: "allows to reuse existing VM for subsequent
+// executions"): full oracle, and the run has to be the run of a fresh VM.
+func (s *stats) reuseCheck(part, name string, script []byte, base int64, budget int, w *walker, fresh *result) {
+	bounds, decoded := boundaries(script)
+	correct := scparser.IsScriptCorrect(script, nil) == nil
+	opts := execOpts{mark: -1, w: w}
+	if correct && decoded {
+		opts.bounds = bounds
+	}
+	for k := 1; k <= 3; k++ {
+		c := cfg{Gas: -1, Base: base, MaxSteps: budget, Reuse: k}
+		rr := exec(script, c, opts)
+		w.loc.note(&rr)
+		if rr.F == nil && (rr.State != fresh.State || rr.Steps != fresh.Steps || rr.Gas != fresh.Gas || rr.MaxWalk != fresh.MaxWalk || rr.MaxRefs != fresh.MaxRefs || rr.Err != fresh.Err) {
+			rr.F = &finding{Kind: "reused-vm-behaves-differently", Site: "at-end", Step: rr.Steps,
+				Msg: fmt.Sprintf("after Reset: %s in %d instructions, gas %d, max items %d/%d, err %q; fresh VM: %s in %d, gas %d, max items %d/%d, err %q",
+					rr.State, rr.Steps, rr.Gas, rr.MaxWalk, rr.MaxRefs, rr.Err, fresh.State, fresh.Steps, fresh.Gas, fresh.MaxWalk, fresh.MaxRefs, fresh.Err)}
+		}
+		s.report(part, name, nil, script, c, correct, &rr, nil)
+		w.loc.outcome(part+"-reused", c, -1, rr.State)
+	}
+}
+
+// apiTotality: Run() where there is nothing (left) to run ends in FAULT with an
+// error, never in a Go panic.
+func (s *stats) apiTotality() {
+	w := newWalker()
+	for _, tc := range []struct {
+		name   string
+		script []byte
+		load   bool
+	}{{"run-without-program", nil, false}, {"run-again-after-halt", []byte{byte(opcode.PUSH1)}, true}, {"run-again-after-fault", []byte{byte(opcode.ABORT)}, true}} {
+		v := vm.New()
+		res := result{State: "FAULT"}
+		var pan any
+		if tc.load {
+			v.Load(tc.script)
+			_, pan = safeRun(v)
+		}
+		if pan == nil {
+			_, pan = safeRun(v)
+		}
+		if pan != nil {
+			res.State = "PANIC"
+			res.F = &finding{Kind: "go-panic-escaped-Run", Site: "Run", Msg: fmt.Sprint(pan)}
+		} else if st := stateName(v.State()); st != "HALT" && st != "FAULT" {
+			res.State = st
+			res.F = &finding{Kind: "ended-neither-halt-nor-fault", Site: "Run", Msg: st}
+		}
+		w.loc.execs++
+		s.report("limits", "api/"+tc.name, nil, tc.script, cfg{Gas: 0, UseRun: true}, false, &res, nil)
+		w.loc.outcome("limits-api", cfg{UseRun: true}, -1, res.State)
+	}
+	s.merge(w)
 }
